@@ -271,6 +271,7 @@ for sz in HEAP_T:
     q = sz in ('e8', 'z0', 'e3', 'a64')
     add('k1_heap', 'heap_protocol_' + sz, 'heap_protocol_h::<%s>()' % TY[sz], props=['C18', 'C10', 'C12'], tier='q' if q else 't', cost=20, macro='ha')
     add('k1_heap', 'heap_expand_' + sz, 'heap_expand_h::<%s>()' % TY[sz], props=['C18', 'C10'], tier='q' if sz in ('e8', 'e3') else 't', cost=20, macro='ha')
+    add('k1_heap', 'heap_expand_exact_' + sz, 'heap_expand_exact_h::<%s>()' % TY[sz], props=['C18', 'C10', 'C12'], tier='q' if sz in ('e8', 'a64') else 't', cost=20, macro='ha')
     add('k1_heap', 'heap_with_size_' + sz, 'heap_with_size_h::<%s>()' % TY[sz], props=['C18', 'C10'], tier='q' if sz in ('e8', 'z0') else 't', cost=5, macro='ha')
     add('k1_heap', 'heap_rawparts_' + sz, 'heap_rawparts_h::<%s>()' % TY[sz], props=['C17', 'C18'], tier='q' if sz in ('e8', 'z0') else 't', cost=5, macro='ha')
     if sz != 'z0':
@@ -329,6 +330,10 @@ add('k1_mem', 'stack_expand_panics', 'stack_expand_h()', props=['C11'], tier='q'
 # C12 views, C13 swap
 for sz in ['e8', 'z0', 'e1', 'e3', 'e16', 'e12', 'a64', 'e160']:
     add('k1_views', 'views_' + sz, 'views_h::<%s>()' % TY[sz], props=['C12', 'C13'], tier=tier_for(sz, {'e8', 'z0', 'e1', 'a64'}), cost=60 if sz in SLOW else 8, macro='p')
+BINL = 'one backend instance each (capacity 2), every length 0..=2 of it, real memory'
+add('k1_views', 'inline_views_stack10_u32', 'inline_views_h::<Stack<10>, u32, 2>()', props=['C12', 'C13', 'C04', 'C11'], tier='q', kind='bounded', bound=BINL, attrs=['#[kani::unwind(6)]'], flags=['nolc'], cost=20, macro='p')
+add('k1_views', 'inline_views_stackn_2_24_u32', 'inline_views_h::<StackN<2, 24>, u32, 2>()', props=['C12', 'C13', 'C04', 'C11'], tier='q', kind='bounded', bound=BINL, attrs=['#[kani::unwind(6)]'], flags=['nolc'], cost=20, macro='p')
+add('k1_views', 'inline_views_stack7_b3', 'inline_views_h::<Stack<7>, [u8; 3], 2>()', props=['C12', 'C13'], tier='t', kind='bounded', bound=BINL, attrs=['#[kani::unwind(6)]'], flags=['nolc'], cost=20, macro='p')
 HK = ['H_ELEM_MUT', 'H_TEMP', 'H_WRAPPER', 'H_RAW']
 BSWAP = 'vectors of 3 u64 elements on real Stack<32> memory; the swapped values and indices are fully symbolic'
 for a in range(4):
